@@ -1114,6 +1114,31 @@ func runC11(c *Ctx) {
 				}
 				return
 			}
+			// a loop that reads once before and once at the end of each round (for ; err == nil; n, addr, err = read()):
+			// address and length are phis of the two reads, edge by edge from the same call on the same buffer
+			if pa, ok := addr.(*ssa.Phi); ok {
+				if sl, ok2 := buf.(*ssa.Slice); ok2 {
+					if pn, ok3 := sl.High.(*ssa.Phi); ok3 && pn.Block() == pa.Block() && len(pn.Edges) == len(pa.Edges) {
+						okAll := true
+						for i := range pa.Edges {
+							ea, isA := pa.Edges[i].(*ssa.Extract)
+							en, isN := pn.Edges[i].(*ssa.Extract)
+							if !isA || !isN || ea.Tuple != en.Tuple {
+								okAll = false
+								break
+							}
+							rf, _ := ea.Tuple.(*ssa.Call)
+							if rf == nil || !rf.Call.IsInvoke() || rf.Call.Method.Name() != "ReadFrom" || sl.X != rf.Call.Args[0] {
+								okAll = false
+								break
+							}
+						}
+						if okAll {
+							return
+						}
+					}
+				}
+			}
 			// batch read: msgs[i].Addr, msgs[i].Buffers[0][:msgs[i].N] with the same i
 			idxOf := func(v ssa.Value) ssa.Value {
 				var found ssa.Value
